@@ -47,6 +47,7 @@ def _snapshot(path, group):
     f = symh5.File(path, "r")
     out = {}
     rec(f[group].id.node, "", out)
+    f.close()
     return out
 
 
@@ -137,6 +138,7 @@ def fault_sym(p):
         prove(_snap_equal(before, after), "a neighbouring collection in the same file changed although the creation failed")
         f = symh5.File(path, "r")
         prove(f.attrs.get("note") == "keep me", "an unrelated file attribute was lost")
+        f.close()
         c = sc.Cooler(path + "::/nb")
         tab = c.pixels()[:]
         prove(and_(tab["bin1_id"].values[0] == nb1[0], tab["bin2_id"].values[0] == nb2[0], tab["count"].values[0] == nv[0]),
@@ -251,3 +253,101 @@ MUTANTS = [
          new='    with h5py.File(file_path, "r+") as f:\n        f[group_path].attrs["format"] = MAGIC\n    logger.info("Writing pixels")\n    target = posixpath.join(group_path, "pixels")', checks=["fault"]),
     dict(name="append mode truncates the file", file="create/_create.py", old="    with h5py.File(file_path, mode) as f:\n        logger.info(f'Creating cooler at", new="    with h5py.File(file_path, 'w') as f:\n        logger.info(f'Creating cooler at", checks=["fault"]),
 ]
+
+
+# ---------------------------------------------------------------------------
+# merge and coarsen as producers: a source that (against the schema) holds a lower-triangle record in a symmetric-upper collection
+# ---------------------------------------------------------------------------
+def reducers_sym(p):
+    from engine import symh5
+    symh5.reset()
+    sc = symcooler()
+    n, K, op = p["n"], p["K"], p["op"]
+    bins = concrete_bins([n], "even")
+    # sorted by (bin1, bin2) but NOT constrained to the upper triangle, stored in a collection flagged symmetric-upper
+    b1, b2, v = sym_pixels(n, K, False)
+    path = scratch_file("c13r.cool")
+    # merge keeps its inputs open read-only while it writes, so its sources live in another file; coarsen works within one file
+    spath = scratch_file("c13r_src.cool") if op == "merge" else path
+    build_cooler_sym(spath, bins, b1, b2, {"count": v}, True, group="/src")
+    nb1, nb2, nv = sym_pixels(n, 1, True, prefix="nb_")
+    build_cooler_sym(path, bins, nb1, nb2, {"count": nv}, True, group="/nb", mode="a" if spath == path else "w")
+    before = _snapshot(path, "/nb")
+    dst = path + "::/dst"
+    if op == "coarsen":
+        k = 2
+        newid = [i // k for i in range(n)]
+        from engine.symnp import _sel
+        bad = or_(*[_sel(newid, x) > _sel(newid, y) for x, y in zip(b1, b2)])
+    else:
+        bad = or_(*[x > y for x, y in zip(b1, b2)])
+    cover("lower_triangle_source", bad)
+    failed = False
+    try:
+        if op == "coarsen":
+            sc.coarsen_cooler(path + "::/src", dst, 2, concretize(sym_int("chunksize", 1, K + 1)))
+        else:
+            sc.merge_coolers(dst, [spath + "::/src", spath + "::/src"], mergebuf=concretize(sym_int("mergebuf", 1, 2 * K + 1)), mode="a")
+    except ValueError:
+        failed = True
+    if not failed:
+        prove(not_(bad), f"{op}: a lower-triangle pixel reached a symmetric-upper output without an error")
+        return ["created"]
+    prove(bad, f"{op} refused a valid source")
+    fo = sc.fileops
+    prove(not fo.is_cooler(dst), f"after a failed {op} the destination is recognised as a cooler")
+    listing = fo.list_coolers(path)
+    want = ["/nb", "/src"] if spath == path else ["/nb"]
+    prove(listing == want, f"after a failed {op} the file lists {listing}")
+    prove(_snap_equal(before, _snapshot(path, "/nb")), "a neighbouring collection changed although the operation failed")
+    return ["failed"]
+
+
+def reducers_real(p, inputs):
+    import cooler
+    import h5py
+    from cooler import fileops as fo
+    n, K, op = p["n"], p["K"], p["op"]
+    bins = concrete_bins([n], "even")
+    b1, b2, v = pixels_from_inputs(inputs, K)
+    path = scratch_file("c13r.cool")
+    spath = scratch_file("c13r_src.cool") if op == "merge" else path
+    # the real create() would refuse this table: write it as square, then flip the storage-mode flag (an invalid but possible file)
+    build_cooler_real(spath, bins, b1, b2, {"count": v}, False, group="/src")
+    with h5py.File(spath, "r+") as f:
+        f["/src"].attrs["storage-mode"] = "symmetric-upper"
+    nb = pixels_from_inputs(inputs, 1, prefix="nb_")
+    build_cooler_real(path, bins, nb[0], nb[1], {"count": nb[2]}, True, group="/nb", mode="a" if spath == path else "w")
+    before = _real_dump(path, "/nb")
+    dst = path + "::/dst"
+    bad = any((x // 2 > y // 2) if op == "coarsen" else (x > y) for x, y in zip(b1, b2))
+    failed = False
+    try:
+        if op == "coarsen":
+            cooler.coarsen_cooler(path + "::/src", dst, 2, inputs["chunksize"])
+        else:
+            cooler.merge_coolers(dst, [spath + "::/src", spath + "::/src"], mergebuf=inputs["mergebuf"], mode="a")
+    except ValueError:
+        failed = True
+    if not failed:
+        if bad:
+            raise OracleFailure(f"{op}: a lower-triangle pixel reached a symmetric-upper output without an error")
+        return ["created"]
+    if not bad:
+        raise OracleFailure(f"{op} refused a valid source")
+    if fo.is_cooler(dst):
+        raise OracleFailure(f"after a failed {op} the destination is recognised as a cooler")
+    if fo.list_coolers(path) != (["/nb", "/src"] if spath == path else ["/nb"]):
+        raise OracleFailure(f"after a failed {op} the file lists {fo.list_coolers(path)}")
+    if _real_dump(path, "/nb") != before:
+        raise OracleFailure("a neighbouring collection changed although the operation failed")
+    return ["failed"]
+
+
+CHECKS.append(
+    Check("reducers", lambda tier: [dict(n=n, K=K, op=op) for n, K in ([(4, 2)] if tier == "quick" else [(4, 2), (4, 3)]) for op in ("coarsen", "merge")],
+          reducers_sym, reducers_real, labels=("lower_triangle_source",),
+          doc="coarsen_cooler / merge_coolers as producers, reading a symmetric-upper source that holds lower-triangle records (constructed directly "
+              "in the store): error <=> a lower-triangle pixel would reach the output; afterwards the destination group is not recognised or listed "
+              "and a neighbouring collection is untouched",
+          bounds=dict(quick="n=4 bins, K=2 source records anywhere in the square, factor 2", thorough="K=3"), timeout=2400, split_depth=7))
